@@ -265,17 +265,14 @@ def encDisease (r : Rec) : Bytes :=
   u32be (16 + (utf8 r.name).length + 4 * r.hpos.length) ++ (u32be r.id ++
     (u32be (utf8 r.name).length ++ (utf8 r.name ++ (u32be r.hpos.length ++ idsBytes r.hpos))))
 
-def encTerms (fv : Nat) : List Term → Bytes
+/-- records one after the other -/
+def encList {α : Type} (enc : α → Bytes) : List α → Bytes
   | [] => []
-  | t :: ts => encTerm fv t ++ encTerms fv ts
+  | x :: xs => enc x ++ encList enc xs
 
-def encParentRecs : List (Nat × List Nat) → Bytes
-  | [] => []
-  | p :: ps => encParents p ++ encParentRecs ps
-
-def encRecs (enc : Rec → Bytes) : List Rec → Bytes
-  | [] => []
-  | r :: rs => enc r ++ encRecs enc rs
+def encTerms (fv : Nat) (ts : List Term) : Bytes := encList (encTerm fv) ts
+def encParentRecs (ps : List (Nat × List Nat)) : Bytes := encList encParents ps
+def encRecs (enc : Rec → Bytes) (rs : List Rec) : Bytes := encList enc rs
 
 /-- `metadata_as_bytes` (v2, v3): magic, format version, release version -/
 def encHeader (fv : Nat) (v : Nat × Nat × Nat) : Bytes :=
